@@ -57,3 +57,52 @@ pub fn chop_trailing_hashtags(v: &[u8]) -> Vec<u8> {
     crate::strings::chop_trailing_hashtags(&mut v);
     v
 }
+
+/// Number of step counters.
+pub const STEP_KINDS: usize = 12;
+
+/// What each step counter counts (one index per scanning mechanism).
+pub const STEP_NAMES: [&str; STEP_KINDS] = [
+    "block-container-match",
+    "block-open-new",
+    "inline-main-loop",
+    "backtick-scan",
+    "dollar-scan",
+    "emphasis-opener-search",
+    "bracket-label-scan",
+    "table-row",
+    "autolink-scan",
+    "postprocess-text",
+    "commonmark-output",
+    "inline-peek",
+];
+
+thread_local! {
+    static STEPS: std::cell::Cell<[u64; STEP_KINDS]> = const { std::cell::Cell::new([0; STEP_KINDS]) };
+}
+
+/// The step counters of this thread since the last `reset`.
+pub fn steps() -> [u64; STEP_KINDS] {
+    STEPS.with(|s| s.get())
+}
+
+/// Zero the step counters of this thread.
+pub fn reset() {
+    STEPS.with(|s| s.set([0; STEP_KINDS]));
+}
+
+/// One step of mechanism `i`.
+#[inline]
+pub fn bump(i: usize) {
+    add(i, 1);
+}
+
+/// `n` steps of mechanism `i`.
+#[inline]
+pub fn add(i: usize, n: usize) {
+    STEPS.with(|s| {
+        let mut v = s.get();
+        v[i] += n as u64;
+        s.set(v);
+    });
+}
